@@ -234,7 +234,49 @@ def changed_models(scn):
     return out
 
 
+def _gen_legacy_ut(rng):
+    """A database whose stored signature records a unique_together that was
+    never applied (Django Evolution < 0.7).  Only a ChangeMeta of
+    unique_together resolves that difference; an evolution without it
+    leaves a residual difference and must be refused."""
+    intf = lambda n, null=False: {'name': n, 'kind': 'Integer',
+                                  'attrs': {'null': True} if null else {}}
+    item = {'name': 'Item', 'fields': [intf('a'), intf('b'),
+                                       intf('c', True), intf('d', True)],
+            'meta': {'unique_together': [['a', 'b']]}}
+    other = rng.choice([
+        {'op': 'DeleteField', 'model': 'Item', 'name': 'c'},
+        {'op': 'AddField', 'model': 'Item', 'field': intf('e', True)},
+        {'op': 'ChangeField', 'model': 'Item', 'name': 'd',
+         'attrs': {'db_index': True}}])
+    cm = {'op': 'ChangeMeta', 'model': 'Item', 'prop': 'unique_together',
+          'value': [['a', 'b']]}
+    valid = [other, cm] if rng.random() < 0.5 else [cm, other]
+    control = rng.random() < 0.3
+    project = {'apps': {'va': {'v0': [item], 'steps': [{'evos': [
+        {'label': spec.evo_label(0), 'mutations': valid}]}]}},
+        'order': ['va'], 'databases': ['default']}
+    sts = proj.states(project)
+    step = project['apps']['va']['steps'][0]
+    step['target'] = copy.deepcopy(sts[1]['apps']['va']['models'])
+    scn = {'project': project, 'cfg': {}, 'legacy_ut': True,
+           'control': control,
+           'rows': {'va_item': [{'id': 1, 'a': 1, 'b': 1, 'c': None,
+                                 'd': None},
+                                {'id': 2, 'a': 1, 'b': 2, 'c': 5,
+                                 'd': None}]},
+           'target_state': copy.deepcopy(sts[1]), 'clean': True,
+           'perturbation': {'kind': 'none' if control else 'drop',
+                            'on': 'ChangeMeta', 'marker': None,
+                            'models': ['Item']}}
+    if not control:
+        step['evos'][0]['mutations'] = [other]
+    return scn
+
+
 def generate(seed, index, tier):
+    if index % 25 == 24:
+        return _gen_legacy_ut(scenarios.derive_rng(seed, ID, index))
     for attempt in range(20):
         rng = scenarios.derive_rng(seed, ID, index, attempt)
         cfg = gen.swarm_config(rng)
@@ -376,6 +418,21 @@ def execute(scn):
             stats['install_skipped'] = 1
             res['runs'] = ws.nruns
             return res
+        if scn.get('legacy_ut'):
+            lg = ws.run('legacy_sig', {'unapplied_unique_together': True})
+            if lg.status != 'ok':
+                raise runner.HarnessError('legacy_sig failed: %s' % (
+                    (lg.exit or {}).get('msg'),))
+            import sqlite3
+            con = sqlite3.connect(ws.db_path())
+            for (name,) in con.execute(
+                    "SELECT name FROM sqlite_master WHERE type='index' AND "
+                    "tbl_name='va_item' AND sql LIKE 'CREATE UNIQUE INDEX%'"
+            ).fetchall():
+                con.execute('DROP INDEX "%s"' % name)
+            con.commit()
+            con.close()
+            stats['legacy_unique_together'] = 1
         pre = snapshot.snapshot(ws)
         proj.deploy(ws, P, 1, sts)
         r = ws.run('evolve', {'execute': True})
@@ -464,6 +521,18 @@ def execute(scn):
                         'model') and m.get('name') == fname and \
                         spec.canon(m) != mk:
                     must = False    # the field is deleted in the same batch
+    if scn.get('legacy_ut'):
+        # the dichotomy itself: without the ChangeMeta the stored
+        # signature keeps differing from the models (unique_together not
+        # applied), so the evolution must be refused; with it, accepted
+        if not scn.get('control') and outcome != 'rejected':
+            viols.append(violation('C12.residual_accepted', outcome=outcome,
+                                   legacy_unique_together=True, **detail))
+        if scn.get('control') and outcome not in ('accepted',):
+            viols.append(violation('C12.valid_rejected', outcome=outcome,
+                                   legacy_unique_together=True,
+                                   msg=((r.exit or {}).get('msg') or '')[
+                                       :200], **detail))
     if must and outcome in ('accepted', 'noop', 'failed_after_sql'):
         viols.append(violation('C12.listed_defect_accepted',
                                outcome=outcome, **detail))
